@@ -301,7 +301,6 @@ Definition test_strict (t : testarg) : bool :=
 Definition not_test_not (t : testarg) : bool := match t with TTestNot _ => false | _ => true end.
 Definition not_nil (s : seqin) : bool := match s with SNil => false | _ => true end.
 Definition is_list (s : seqin) : bool := match s with SNil | SList _ => true | _ => false end.
-Definition count_not_nil (c : countarg) : bool := match c with CNil => false | _ => true end.
 Definition count_not_num (c : countarg) : bool := match c with CNum _ => false | _ => true end.
 Definition start_absent (o : option nat) : bool := match o with None => true | Some _ => false end.
 
@@ -331,8 +330,8 @@ Definition in_domain (c : call) : bool :=
   | FFindIf | FPositionIf => true
   | FCount => not_test_not (c_test c)
   | FCountIf => true
-  | FRemove | FDelete => not_test_not (c_test c) && count_not_nil (c_count c)    (* KF :count nil *)
-  | FRemoveIf | FDeleteIf => count_not_nil (c_count c)
+  | FRemove | FDelete => not_test_not (c_test c)
+  | FRemoveIf | FDeleteIf => true
   | FSubstitute | FNsubstitute => not_test_not (c_test c) && count_not_num (c_count c)   (* KF :count counts looks *)
   | FSubstituteIf | FNsubstituteIf => count_not_num (c_count c)
   | FRemoveDuplicates | FDeleteDuplicates =>
